@@ -47,6 +47,21 @@ def build_logged(a, log):
             log.append({'s': s, 'xs': atoms(x)})
             return x
         return ds.map(f)
+    if op in ('lfmap', 'lpmap'):
+        from lazy_dataset.core import FilterException
+        pr = U.pred(a['p'])
+
+        def g(x, s=s):
+            log.append({'s': s, 'xs': atoms(x)})
+            if pr(x):
+                raise FilterException(x)
+            return x
+        if op == 'lfmap':
+            return ds.map(g)
+        return ds.map(g, num_workers=a['w'], buffer_size=a['bs'])
+    if op == 'rshuffle':
+        import numpy as np
+        return ds.shuffle(True, rng=np.random.RandomState(a['seed']))
     if op == 'lfilter':
         pr = U.pred(a['p'])
 
